@@ -6,6 +6,7 @@ import (
 	"bytes"
 	"fmt"
 	"runtime"
+	"strings"
 	"sync"
 
 	"github.com/bytemare/secp256k1"
@@ -587,3 +588,67 @@ func concBatches(c *mon.Ctx, n int, mk func(seed uint64) any) {
 }
 
 func concRng(id string, seed uint64) *gen.Rng { return gen.New(seed, id+"/concurrent") }
+
+// Kept outputs. A value the API handed out (a byte slice, a string) belongs to the caller from then on: nothing the
+// library does later, and nothing the caller does with ANOTHER value it was handed, may change it. keep records an
+// output together with a private copy; check first writes into the spare capacity of every kept slice (what
+// append(b, ...) does when cap(b) > len(b)) and then compares every kept value with its copy. Slices carved out of one
+// slab without a capacity cap, strings that alias a recycled buffer and memo entries handed out by reference all show here.
+type keptOut struct {
+	what string
+	b    []byte
+	s    string
+	want string
+}
+
+type keptSet struct{ l []keptOut }
+
+func (ks *keptSet) keep(what string, b []byte, s string) {
+	k := keptOut{what: what, b: b, s: s}
+	if b != nil {
+		k.want = string(b) // a copy
+	} else {
+		k.want = strings.Clone(s)
+	}
+
+	ks.l = append(ks.l, k)
+}
+
+// check reports the first kept output that no longer has the value it was handed out with.
+func (ks *keptSet) check(c *mon.Ctx, key string) bool {
+	for _, k := range ks.l {
+		if k.b != nil && cap(k.b) > len(k.b) {
+			sp := k.b[len(k.b):cap(k.b)]
+			for i := range sp {
+				sp[i] = 0xa5
+			}
+
+			c.Count("kept-outputs-with-spare-capacity-written")
+		}
+	}
+
+	for i, k := range ks.l {
+		cur := k.s
+		if k.b != nil {
+			cur = string(k.b)
+		}
+
+		c.Count("kept-outputs-rechecked")
+
+		if cur != k.want {
+			show := func(s string) string {
+				if k.b != nil {
+					return mon.H([]byte(s))
+				}
+
+				return fmt.Sprintf("%q", s)
+			}
+
+			c.Fail(fmt.Sprintf("a value handed out by %s changed afterwards (%d further outputs were handed out after it; the caller only wrote into the spare capacity of the slices it had been handed): was %s, is now %s", k.what, len(ks.l)-1-i, show(k.want), show(cur)), key, nil)
+
+			return false
+		}
+	}
+
+	return true
+}
